@@ -175,6 +175,14 @@ def installed(tracer, storage_level=True, os_level=True, parquet_native=True):
             return f
 
         setattr_(SB, "open", sb_open)
+
+        def do_open(file, mode="r", *a, **kw):
+            tracer.fire("before", "do", "open:" + mode, tracer.rel(file), None)
+            f = real_open(file, mode, *a, **kw)
+            tracer.fire("after", "do", "open:" + mode, tracer.rel(file), None)
+            return f
+
+        setattr_(DO, "open", do_open)
         if parquet_native:
             # the native parquet writer is a single opaque step from Python's point of view
             import pyarrow.parquet as pq
